@@ -157,7 +157,7 @@ Proof. exact plen_digits_whole. Qed.
 Print Assumptions C11_plen_digits_whole.
 
 Theorem C11_v6_parse_shape :
-  forall s a p, v6_parse s = Some (a, p) -> exists t addr, v6_text s = Some t /\ length t <= v6_maxlen /\ v6_addr addr = Some a /\ forallb (fun x => negb (N.eqb x c_slash)) addr = true /\ ((t = addr /\ p = 128%Z) \/ (exists m, t = addr ++ c_slash :: m /\ plen6_of_digits m = Some p)).
+  forall s a p, v6_parse s = Some (a, p) -> exists t addr, v6_text s = Some t /\ (length t <= v6_maxlen)%nat /\ v6_addr addr = Some a /\ forallb (fun x => negb (N.eqb x c_slash)) addr = true /\ ((t = addr /\ p = 128%Z) \/ (exists m, t = addr ++ c_slash :: m /\ plen6_of_digits m = Some p)).
 Proof. exact v6_parse_shape. Qed.
 Print Assumptions C11_v6_parse_shape.
 
